@@ -148,6 +148,8 @@ func binAritCode(op syntax.BinAritOperator) uint64 {
 		return 22
 	case syntax.OrArit:
 		return 23
+	case syntax.Pow:
+		return 24
 	}
 	for i, a := range assignOps {
 		if a == op {
@@ -285,6 +287,8 @@ type codeCase struct {
 	M   bool   `json:"m"`   // Simplify's result
 	Src string `json:"src"` // printed form of the sub-tree before (for humans)
 	Syn bool   `json:"syn"` // synthetic tree (not from the parser)
+	KF3 bool   `json:"kf3"` // arith: Go class predicate arith_dollar_param_after_side_effect on the tree before
+	KF4 bool   `json:"kf4"` // arith: Go class predicate (tree part) arith_dollar_exponent_unevaluated
 }
 
 func printNode(n syntax.Node) string {
@@ -305,7 +309,7 @@ func arithCase(x syntax.ArithmExpr, parens, inline, syn bool) *codeCase {
 	if !ok {
 		return nil
 	}
-	c := &codeCase{K: "arith", P: parens, I: inline, B: b, Syn: syn}
+	c := &codeCase{K: "arith", P: parens, I: inline, B: b, Syn: syn, KF3: rootDollarAfterSideEffect(x), KF4: nodeDollarExponent(x)}
 	var after func() syntax.ArithmExpr
 	var holder syntax.Node
 	switch {
@@ -505,6 +509,20 @@ func (s synth) word() *syntax.Word {
 func (s synth) arith(d int) syntax.ArithmExpr {
 	if d <= 0 || s.r.IntN(5) == 0 {
 		return s.word()
+	}
+	if s.r.IntN(6) == 0 {
+		// an operand $v next to an operator that writes v (or another name): KF-C04-3's class and its complement
+		name := hx.Pick(s.r, []string{"a", "b"})
+		ref := hx.Pick(s.r, []string{"a", "b", "a"})
+		lhs := &syntax.Word{Parts: []syntax.WordPart{lit(name)}}
+		var mod syntax.ArithmExpr
+		if s.r.IntN(2) == 0 {
+			mod = &syntax.UnaryArithm{Op: hx.Pick(s.r, []syntax.UnAritOperator{syntax.Inc, syntax.Dec}), Post: s.r.IntN(2) == 0, X: lhs}
+		} else {
+			mod = &syntax.BinaryArithm{Op: hx.Pick(s.r, []syntax.BinAritOperator{syntax.Assgn, syntax.AddAssgn, syntax.ShlAssgn}), X: lhs, Y: s.arith(d - 1)}
+		}
+		use := &syntax.Word{Parts: []syntax.WordPart{&syntax.ParamExp{Short: s.r.IntN(2) == 0, Param: lit(ref)}}}
+		return &syntax.BinaryArithm{Op: hx.Pick(s.r, []syntax.BinAritOperator{syntax.Comma, syntax.Add, syntax.AndArit}), X: mod, Y: use}
 	}
 	switch s.r.IntN(6) {
 	case 0, 1:
@@ -736,6 +754,77 @@ func assocIndexInline(src string) bool {
 	return assoc && hit
 }
 
+// dollarExponent: some ** in the program has an inlinable `$name` operand in its exponent
+// (Coq twin of the per-root version: KF/C04KF.v kf_dollar_exponent).
+func dollarExponent(src string) bool {
+	f, err := parse(src)
+	if err != nil {
+		return false
+	}
+	return nodeDollarExponent(f)
+}
+
+func nodeDollarExponent(f syntax.Node) bool {
+	hit := false
+	syntax.Walk(f, func(n syntax.Node) bool {
+		if b, ok := n.(*syntax.BinaryArithm); ok && b.Op == syntax.Pow {
+			syntax.Walk(b.Y, func(m syntax.Node) bool {
+				if w, ok := m.(*syntax.Word); ok && len(w.Parts) == 1 {
+					if pe, ok := w.Parts[0].(*syntax.ParamExp); ok {
+						if fl, ok := paramFlags(pe); ok && fl == 0 && syntax.ValidName(pe.Param.Value) {
+							hit = true
+						}
+					}
+				}
+				return true
+			})
+		}
+		return true
+	})
+	return hit
+}
+
+// rootDollarAfterSideEffect is the class predicate on one arithmetic root (Coq twin:
+// KF/C04KF.v kf_dollar_param_after_side_effect).
+func rootDollarAfterSideEffect(x syntax.ArithmExpr) bool {
+	if x == nil {
+		return false
+	}
+	inlined := map[string]bool{}
+	modified := map[string]bool{}
+	syntax.Walk(x, func(n syntax.Node) bool {
+		switch n := n.(type) {
+		case *syntax.Word:
+			if len(n.Parts) == 1 {
+				if pe, ok := n.Parts[0].(*syntax.ParamExp); ok {
+					if fl, ok := paramFlags(pe); ok && fl == 0 && syntax.ValidName(pe.Param.Value) {
+						inlined[pe.Param.Value] = true
+					}
+				}
+			}
+		case *syntax.UnaryArithm:
+			if n.Op == syntax.Inc || n.Op == syntax.Dec {
+				if w, ok := n.X.(*syntax.Word); ok {
+					modified[w.Lit()] = true
+				}
+			}
+		case *syntax.BinaryArithm:
+			if binAritCode(n.Op) < 20 {
+				if w, ok := n.X.(*syntax.Word); ok {
+					modified[w.Lit()] = true
+				}
+			}
+		}
+		return true
+	})
+	for name := range inlined {
+		if modified[name] {
+			return true
+		}
+	}
+	return false
+}
+
 // dollarParamAfterSideEffect: some arithmetic expression of the program contains both a
 // `$name` operand that Simplify inlines and an operator that modifies the same name
 // (++ -- or an assignment operator).
@@ -746,40 +835,8 @@ func dollarParamAfterSideEffect(src string) bool {
 	}
 	hit := false
 	checkRoot := func(x syntax.ArithmExpr) {
-		if x == nil {
-			return
-		}
-		inlined := map[string]bool{}
-		modified := map[string]bool{}
-		syntax.Walk(x, func(n syntax.Node) bool {
-			switch n := n.(type) {
-			case *syntax.Word:
-				if len(n.Parts) == 1 {
-					if pe, ok := n.Parts[0].(*syntax.ParamExp); ok {
-						if fl, ok := paramFlags(pe); ok && fl == 0 && syntax.ValidName(pe.Param.Value) {
-							inlined[pe.Param.Value] = true
-						}
-					}
-				}
-			case *syntax.UnaryArithm:
-				if n.Op == syntax.Inc || n.Op == syntax.Dec {
-					if w, ok := n.X.(*syntax.Word); ok {
-						modified[w.Lit()] = true
-					}
-				}
-			case *syntax.BinaryArithm:
-				if binAritCode(n.Op) < 20 {
-					if w, ok := n.X.(*syntax.Word); ok {
-						modified[w.Lit()] = true
-					}
-				}
-			}
-			return true
-		})
-		for name := range inlined {
-			if modified[name] {
-				hit = true
-			}
+		if rootDollarAfterSideEffect(x) {
+			hit = true
 		}
 	}
 	syntax.Walk(f, func(n syntax.Node) bool {
@@ -912,6 +969,7 @@ func main() {
 			"declare -A x; i=3; x[$i+1]=v; echo \"${x[3+1]}\"\n",
 			"( (echo $BASH_SUBSHELL) )\n",
 			"c=-2; echo $((++c, $c))\n",
+			"a=-2; echo $((1 ? 5 : 2 ** $a))\n",
 		} {
 			cases = append(cases, &searchCase{Src: w, From: "witness"})
 		}
@@ -981,6 +1039,10 @@ func main() {
 					c.Class = "bash_subshell_level_observed"
 				} else if onlyBash && dollarParamAfterSideEffect(c.Src) {
 					c.Class = "arith_dollar_param_after_side_effect"
+				} else if onlyBash && ok && dollarExponent(c.Src) &&
+					strings.Contains(hxbeh.BashStderr(p.o), "exponent less than 0") &&
+					!strings.Contains(hxbeh.BashStderr(p.s), "exponent less than 0") {
+					c.Class = "arith_dollar_exponent_unevaluated"
 				}
 			}
 			if len(c.Fails) == 0 {
